@@ -562,14 +562,19 @@ func checkHookCoverage(P *core.Program, R *core.Report, subjects map[*ssa.Functi
 func reachesPruned(ff *core.FuncFacts, from ssa.Instruction, target, stop func(ssa.Instruction) bool, prune func(*core.Atom) bool) (ssa.Instruction, bool) {
 	fn := ff.Fn
 	type item struct {
-		b *ssa.BasicBlock
-		i int
+		b  *ssa.BasicBlock
+		i  int
+		pi int // predecessor index the block was entered through (-1: any)
 	}
-	seen := map[*ssa.BasicBlock]bool{}
+	type key struct {
+		b  *ssa.BasicBlock
+		pi int
+	}
+	seen := map[key]bool{}
 	var q []item
 	if from == nil {
-		q = append(q, item{fn.Blocks[0], 0})
-		seen[fn.Blocks[0]] = true
+		q = append(q, item{fn.Blocks[0], 0, -1})
+		seen[key{fn.Blocks[0], -1}] = true
 	} else {
 		idx := 0
 		for i, x := range from.Block().Instrs {
@@ -577,7 +582,7 @@ func reachesPruned(ff *core.FuncFacts, from ssa.Instruction, target, stop func(s
 				idx = i
 			}
 		}
-		q = append(q, item{from.Block(), idx + 1})
+		q = append(q, item{from.Block(), idx + 1, -1})
 	}
 	for len(q) > 0 {
 		it := q[0]
@@ -596,8 +601,15 @@ func reachesPruned(ff *core.FuncFacts, from ssa.Instruction, target, stop func(s
 		if blocked {
 			continue
 		}
-		for _, s := range it.b.Succs {
-			if seen[s] {
+		// jump threading: an edge that delivers a definitely (non-)nil error into a block that
+		// tests that error φ continues on the matching branch only
+		for _, s := range ff.ThreadedSuccs(it.b, it.pi) {
+			pi := core.PredIndex(it.b, s)
+			k := key{s, pi}
+			if len(ff.ThreadedSuccs(s, pi)) == len(s.Succs) {
+				k.pi = -1
+			}
+			if seen[k] {
 				continue
 			}
 			pruned := false
@@ -609,8 +621,8 @@ func reachesPruned(ff *core.FuncFacts, from ssa.Instruction, target, stop func(s
 			if pruned {
 				continue
 			}
-			seen[s] = true
-			q = append(q, item{s, 0})
+			seen[k] = true
+			q = append(q, item{s, 0, pi})
 		}
 	}
 	return nil, false
